@@ -1734,7 +1734,7 @@ func checkReleaseErrorForwardedAsIs(c *report.Ctx) {
 			}
 		})
 	}
-	c.Check("R-WIRE", an.FuncName(inv)+"/release-error-forwarded-as-is", "the error sent to the front end after the wait for the release is AwaitRelease's own (the failure class decides status and body there; the reset's outcome does not replace it)", len(bad) == 0 && n >= 2, pos, n, "error sends in the release goroutine: %d; not AwaitRelease's result: %v", n, uniq(bad))
+	c.Check("R-WIRE", an.FuncName(inv)+"/release-error-forwarded-as-is", "the error sent to the front end after the wait for the release is AwaitRelease's own (the failure class decides status and body there; the reset's outcome does not replace it)", len(bad) == 0 && n >= 1, pos, n, "error sends in the release goroutine: %d; not AwaitRelease's result: %v", n, uniq(bad))
 }
 
 // checkExtensionProcessNameFromFileName (C06, C09): an extension's process is started under
